@@ -5,5 +5,3 @@ func addFixtures(repo string, overlay map[string][]byte) {}
 
 // runFixtureControls asserts that the fixture obligations behave as expected.
 func runFixtureControls(c *Ctx) {}
-
-func runThoroughExtras(c *Ctx, pd *propDef, ri *runInfo, repo string, overlay map[string][]byte) {}
